@@ -403,6 +403,392 @@ theorem exec_atomic_of_independent [DecidableEq σ] (B : Backend σ κ γ ρ) (I
 
 end
 
+
+/-! ## the two machines in lock step -/
+
+/-- two lists related element by element (core has no `Forall₂`) -/
+inductive Rel2 {α β : Type} (R : α → β → Prop) : List α → List β → Prop where
+  | nil : Rel2 R [] []
+  | cons {a : α} {b : β} {l : List α} {m : List β} : R a b → Rel2 R l m → Rel2 R (a :: l) (b :: m)
+
+theorem Rel2.append {α β : Type} {R : α → β → Prop} {l1 l2 : List α} {m1 m2 : List β}
+    (h1 : Rel2 R l1 m1) (h2 : Rel2 R l2 m2) : Rel2 R (l1 ++ l2) (m1 ++ m2) := by
+  induction h1 with
+  | nil => exact h2
+  | cons hab _ ih => exact Rel2.cons hab ih
+
+section
+variable {σ κ γ ρ ν : Type} [DecidableEq ρ] [DecidableEq κ] [DecidableEq ν]
+
+/-- the common alphabet embedded into the connection-level machine's inputs -/
+def toConn : XInput κ γ → Input κ γ
+  | .multi => .multi
+  | .exec => .exec
+  | .discard => .discard
+  | .unwatch => .unwatch
+  | .watch ks => .watch ks
+  | .cmd c => .cmd c
+
+/-- replies up to the shape of "aborted by WATCH" (`*-1` at the connection, `$-1` at the executor)
+    and the error texts both machines share -/
+def toX : Reply ρ → Option (XReply ρ)
+  | .ok => some .ok
+  | .queued => some .queued
+  | .nil => some .nil
+  | .results rs => some (.results rs)
+  | .plain r => some (.plain r)
+  | .err .nestedMulti => some (.err .nestedMulti)
+  | .err .watchInMulti => some (.err .watchInMulti)
+  | .err .execWithoutMulti => some (.err .execWithoutMulti)
+  | .err .discardWithoutMulti => some (.err .discardWithoutMulti)
+  | .err _ => none
+
+/-- the executor under the connection: the same `exec`, plus the raw value the executor-level
+    WATCH snapshots -/
+def xOf (B : Backend σ κ γ ρ) (value : σ → κ → Option ν) : XBackend σ κ γ ρ ν :=
+  { exec := B.exec, value := value }
+
+/-- the GET reply of `k` taken at `s0` tells exactly as much as the value taken at `s0`: at every
+    later store the reply is unchanged iff the value is -/
+def GetFaithfulAt (B : Backend σ κ γ ρ) (value : σ → κ → Option ν) (s0 : σ) (k : κ) : Prop :=
+  ∀ s, B.getReply s k = B.getReply s0 k ↔ value s k = value s0 k
+
+/-- a queued entry of the connection and the corresponding entry of the executor's queue -/
+def QRel (B : Backend σ κ γ ρ) (c : γ) : XQ γ → Prop
+  | .cmd c' => c = c'
+  | .unwatch => c = B.unwatchCmd
+
+/-- a snapshot of the connection and the corresponding snapshot of the executor: same key, and
+    they match the current store together -/
+def WRel (B : Backend σ κ γ ρ) (value : σ → κ → Option ν) (p : κ × ρ) (q : κ × Option ν) : Prop :=
+  p.1 = q.1 ∧ ∀ s, B.getReply s p.1 = p.2 ↔ value s p.1 = q.2
+
+/-- the simulation relation -/
+structure Sim (B : Backend σ κ γ ρ) (value : σ → κ → Option ν) (t : ConnTxn κ γ ρ)
+    (x : ExTxn κ γ ν) : Prop where
+  inTxn : t.inTxn = x.inTxn
+  errors : t.errors = false
+  queue : Rel2 (QRel B) t.queue x.queue
+  watched : Rel2 (WRel B value) t.watched x.watched
+
+/-- what an input must satisfy for the machines to stay in step: a WATCH outside MULTI names
+    fresh, distinct keys whose GET reply is faithful at this moment -/
+def Guard (B : Backend σ κ γ ρ) (value : σ → κ → Option ν) (t : ConnTxn κ γ ρ) (s : σ) :
+    XInput κ γ → Prop
+  | .watch ks =>
+    t.inTxn = true ∨
+      (ks.Nodup ∧ (∀ k ∈ ks, k ∉ t.watched.map (·.1)) ∧ ∀ k ∈ ks, GetFaithfulAt B value s k)
+  | _ => True
+
+omit [DecidableEq ρ] [DecidableEq κ] [DecidableEq ν] in
+theorem runSeq_xrunQueue (B : Backend σ κ γ ρ) (value : σ → κ → Option ν) (okR : ρ)
+    (hU : ∀ s, B.exec s B.unwatchCmd = (s, okR)) (q : List γ) (xq : List (XQ γ))
+    (h : Rel2 (QRel B) q xq) :
+    ∀ s, runSeq B s q = xrunQueue (xOf B value) okR s xq := by
+  induction h with
+  | nil => intro s; rfl
+  | @cons c xc cs xcs hc _ ih =>
+    intro s
+    cases xc with
+    | cmd c' =>
+      have : c = c' := hc
+      subst this
+      simp only [runSeq, xrunQueue, xOf]
+      rw [ih]
+      rfl
+    | unwatch =>
+      have : c = B.unwatchCmd := hc
+      subst this
+      simp only [runSeq, xrunQueue, hU]
+      rw [ih]
+
+omit [DecidableEq κ] in
+theorem any_wrel (B : Backend σ κ γ ρ) (value : σ → κ → Option ν) (s : σ)
+    (w : List (κ × ρ)) (xw : List (κ × Option ν)) (h : Rel2 (WRel B value) w xw) :
+    w.any (fun p => decide (B.getReply s p.1 ≠ p.2)) =
+      xw.any (fun p => decide (value s p.1 ≠ p.2)) := by
+  induction h with
+  | nil => rfl
+  | @cons p q ps qs hpq _ ih =>
+    simp only [List.any_cons, ih]
+    obtain ⟨hk, hf⟩ := hpq
+    have := hf s
+    rw [← hk]
+    by_cases h1 : B.getReply s p.1 = p.2
+    · have h2 := this.mp h1
+      simp [h1, h2]
+    · have h2 : ¬ value s p.1 = q.2 := fun hh => h1 (this.mpr hh)
+      simp [h1, h2]
+
+omit [DecidableEq ρ] [DecidableEq ν] in
+theorem putIfAbsent_fresh (k : κ) (v : Option ν) (m : List (κ × Option ν))
+    (h : k ∉ m.map (·.1)) : putIfAbsent k v m = m ++ [(k, v)] := by
+  induction m with
+  | nil => rfl
+  | cons q rest ih =>
+    obtain ⟨k', v'⟩ := q
+    have hne : k ≠ k' := by
+      intro hh; apply h; simp [hh]
+    have hr : k ∉ rest.map (·.1) := by
+      intro hh; apply h; simp at hh ⊢; exact Or.inr hh
+    simp [putIfAbsent, hne, ih hr]
+
+omit [DecidableEq ρ] [DecidableEq ν] in
+/-- WATCH of fresh distinct keys: the executor's map grows by the same keys in the same order -/
+theorem watch_fold_fresh (value : σ → κ → Option ν) (s : σ) (ks : List κ) :
+    ∀ (m : List (κ × Option ν)), ks.Nodup → (∀ k ∈ ks, k ∉ m.map (·.1)) →
+      ks.foldl (fun w k => putIfAbsent k (value s k) w) m = m ++ ks.map (fun k => (k, value s k)) := by
+  induction ks with
+  | nil => intro m _ _; simp
+  | cons k rest ih =>
+    intro m hnd hfresh
+    have hk : k ∉ m.map (·.1) := hfresh k (by simp)
+    have hnd' : rest.Nodup := (List.nodup_cons.mp hnd).2
+    have hkr : k ∉ rest := (List.nodup_cons.mp hnd).1
+    simp only [List.foldl_cons]
+    rw [putIfAbsent_fresh k _ m hk, ih _ hnd']
+    · simp
+    · intro k' hk' hmem
+      simp only [List.map_append, List.map_cons, List.map_nil, List.mem_append, List.mem_singleton] at hmem
+      rcases hmem with hmem | hmem
+      · exact hfresh k' (by simp [hk']) hmem
+      · subst hmem; exact hkr hk'
+
+omit [DecidableEq κ] [DecidableEq ν] [DecidableEq ρ] in
+theorem forall2_keys (B : Backend σ κ γ ρ) (value : σ → κ → Option ν)
+    (w : List (κ × ρ)) (xw : List (κ × Option ν)) (h : Rel2 (WRel B value) w xw) :
+    w.map (·.1) = xw.map (·.1) := by
+  induction h with
+  | nil => rfl
+  | @cons p q _ _ hpq _ ih => simp [ih, hpq.1]
+
+omit [DecidableEq ρ] [DecidableEq κ] [DecidableEq ν] in
+theorem sim_idle (B : Backend σ κ γ ρ) (value : σ → κ → Option ν) :
+    Sim B value (ConnTxn.idle : ConnTxn κ γ ρ) (ExTxn.idle : ExTxn κ γ ν) :=
+  ⟨rfl, rfl, Rel2.nil, Rel2.nil⟩
+
+
+omit [DecidableEq ρ] [DecidableEq κ] [DecidableEq ν] in
+theorem rel2_watch_maps (B : Backend σ κ γ ρ) (value : σ → κ → Option ν) (s : σ) (ks : List κ) :
+    (∀ k ∈ ks, GetFaithfulAt B value s k) →
+      Rel2 (WRel B value) (ks.map (fun k => (k, B.getReply s k))) (ks.map (fun k => (k, value s k))) := by
+  induction ks with
+  | nil => intro _; exact Rel2.nil
+  | cons k rest ih =>
+    intro g3
+    exact Rel2.cons ⟨rfl, fun s' => g3 k (by simp) s'⟩ (ih (fun k' hk' => g3 k' (by simp [hk'])))
+
+/-- **one step in lock step**: related states, a guarded input, nobody interfering — same store,
+    the same reply (up to `toX`), related states again -/
+theorem sim_step (B : Backend σ κ γ ρ) (value : σ → κ → Option ν) (okR : ρ)
+    (hU : ∀ s, B.exec s B.unwatchCmd = (s, okR)) (t : ConnTxn κ γ ρ) (x : ExTxn κ γ ν) (s : σ)
+    (i : XInput κ γ) (hS : Sim B value t x) (hG : Guard B value t s i) :
+    (step B [] t s (toConn i)).2.1 = (xstep (xOf B value) okR x s i).2.1 ∧
+    toX (step B [] t s (toConn i)).2.2 = some (xstep (xOf B value) okR x s i).2.2 ∧
+    Sim B value (step B [] t s (toConn i)).1 (xstep (xOf B value) okR x s i).1 := by
+  obtain ⟨h1, h2, h3, h4⟩ := hS
+  cases hin : t.inTxn
+  · -- outside MULTI
+    have hx : x.inTxn = false := by rw [← h1]; exact hin
+    cases i with
+    | multi =>
+      have e1 : step B [] t s .multi = ({ t with inTxn := true, queue := [], errors := false }, s, .ok) := by
+        simp [step, hin]
+      have e2 : xstep (xOf B value) okR x s .multi = ({ x with inTxn := true, queue := [] }, s, .ok) := by
+        simp [xstep, xstepWith, hx]
+      show (step B [] t s .multi).2.1 = _ ∧ toX (step B [] t s .multi).2.2 = _ ∧ Sim B value (step B [] t s .multi).1 _
+      rw [e1, e2]
+      exact ⟨rfl, rfl, ⟨rfl, rfl, Rel2.nil, h4⟩⟩
+    | exec =>
+      have e1 : step B [] t s .exec = (t, s, .err .execWithoutMulti) := by simp [step, hin]
+      have e2 : xstep (xOf B value) okR x s .exec = (x, s, .err .execWithoutMulti) := by
+        simp [xstep, xstepWith, hx]
+      show (step B [] t s .exec).2.1 = _ ∧ toX (step B [] t s .exec).2.2 = _ ∧ Sim B value (step B [] t s .exec).1 _
+      rw [e1, e2]
+      exact ⟨rfl, rfl, ⟨h1, h2, h3, h4⟩⟩
+    | discard =>
+      have e1 : step B [] t s .discard = (t, s, .err .discardWithoutMulti) := by simp [step, hin]
+      have e2 : xstep (xOf B value) okR x s .discard = (x, s, .err .discardWithoutMulti) := by
+        simp [xstep, xstepWith, hx]
+      show (step B [] t s .discard).2.1 = _ ∧ toX (step B [] t s .discard).2.2 = _ ∧ Sim B value (step B [] t s .discard).1 _
+      rw [e1, e2]
+      exact ⟨rfl, rfl, ⟨h1, h2, h3, h4⟩⟩
+    | unwatch =>
+      have e1 : step B [] t s .unwatch = ({ t with watched := [] }, s, .ok) := by simp [step, hin]
+      have e2 : xstep (xOf B value) okR x s .unwatch = ({ x with watched := [] }, s, .ok) := by
+        simp [xstep, xstepWith, hx]
+      show (step B [] t s .unwatch).2.1 = _ ∧ toX (step B [] t s .unwatch).2.2 = _ ∧ Sim B value (step B [] t s .unwatch).1 _
+      rw [e1, e2]
+      exact ⟨rfl, rfl, ⟨h1, h2, h3, Rel2.nil⟩⟩
+    | cmd c =>
+      have e1 : step B [] t s (.cmd c) = (t, (B.exec s c).1, .plain (B.exec s c).2) := by simp [step, hin]
+      have e2 : xstep (xOf B value) okR x s (.cmd c) = (x, (B.exec s c).1, .plain (B.exec s c).2) := by
+        simp [xstep, xstepWith, hx, xOf]
+      show (step B [] t s (.cmd c)).2.1 = _ ∧ toX (step B [] t s (.cmd c)).2.2 = _ ∧ Sim B value (step B [] t s (.cmd c)).1 _
+      rw [e1, e2]
+      exact ⟨rfl, rfl, ⟨h1, h2, h3, h4⟩⟩
+    | watch ks =>
+      have hG' : ks.Nodup ∧ (∀ k ∈ ks, k ∉ t.watched.map (·.1)) ∧ ∀ k ∈ ks, GetFaithfulAt B value s k := by
+        rcases hG with hG | hG
+        · rw [hin] at hG; cases hG
+        · exact hG
+      obtain ⟨g1, g2, g3⟩ := hG'
+      have hkeys := forall2_keys B value t.watched x.watched h4
+      have e1 := watch_snapshot_is_get B [] t s ks hin
+      have e2 : xstep (xOf B value) okR x s (.watch ks) =
+          ({ x with watched := x.watched ++ ks.map (fun k => (k, value s k)) }, s, .ok) := by
+        simp only [xstep, xstepWith, hx, Bool.false_eq_true, if_false, watchPut, if_true, xOf]
+        rw [watch_fold_fresh value s ks x.watched g1 (by rw [← hkeys]; exact g2)]
+      show (step B [] t s (.watch ks)).2.1 = _ ∧ toX (step B [] t s (.watch ks)).2.2 = _ ∧ Sim B value (step B [] t s (.watch ks)).1 _
+      rw [e1, e2]
+      refine ⟨rfl, rfl, ⟨h1, h2, h3, ?_⟩⟩
+      exact Rel2.append h4 (rel2_watch_maps B value s ks g3)
+  · -- inside MULTI
+    have hx : x.inTxn = true := by rw [← h1]; exact hin
+    cases i with
+    | multi =>
+      have e1 : step B [] t s .multi = (t, s, .err .nestedMulti) := by simp [step, hin]
+      have e2 : xstep (xOf B value) okR x s .multi = (x, s, .err .nestedMulti) := by
+        simp [xstep, xstepWith, hx]
+      show (step B [] t s .multi).2.1 = _ ∧ toX (step B [] t s .multi).2.2 = _ ∧ Sim B value (step B [] t s .multi).1 _
+      rw [e1, e2]
+      exact ⟨rfl, rfl, ⟨h1, h2, h3, h4⟩⟩
+    | watch ks =>
+      have e1 : step B [] t s (.watch ks) = (t, s, .err .watchInMulti) := by simp [step, hin]
+      have e2 : xstep (xOf B value) okR x s (.watch ks) = (x, s, .err .watchInMulti) := by
+        simp [xstep, xstepWith, hx]
+      show (step B [] t s (.watch ks)).2.1 = _ ∧ toX (step B [] t s (.watch ks)).2.2 = _ ∧ Sim B value (step B [] t s (.watch ks)).1 _
+      rw [e1, e2]
+      exact ⟨rfl, rfl, ⟨h1, h2, h3, h4⟩⟩
+    | discard =>
+      have e1 : step B [] t s .discard = (ConnTxn.idle, s, .ok) := by simp [step, hin]
+      have e2 : xstep (xOf B value) okR x s .discard = (ExTxn.idle, s, .ok) := by
+        simp [xstep, xstepWith, hx]
+      show (step B [] t s .discard).2.1 = _ ∧ toX (step B [] t s .discard).2.2 = _ ∧ Sim B value (step B [] t s .discard).1 _
+      rw [e1, e2]
+      exact ⟨rfl, rfl, sim_idle B value⟩
+    | unwatch =>
+      have e1 : step B [] t s .unwatch = ({ t with queue := t.queue ++ [B.unwatchCmd] }, s, .queued) := by
+        simp [step, hin]
+      have e2 : xstep (xOf B value) okR x s .unwatch = ({ x with queue := x.queue ++ [.unwatch] }, s, .queued) := by
+        simp [xstep, xstepWith, hx]
+      show (step B [] t s .unwatch).2.1 = _ ∧ toX (step B [] t s .unwatch).2.2 = _ ∧ Sim B value (step B [] t s .unwatch).1 _
+      rw [e1, e2]
+      exact ⟨rfl, rfl, ⟨h1, h2, Rel2.append h3 (Rel2.cons rfl Rel2.nil), h4⟩⟩
+    | cmd c =>
+      have e1 : step B [] t s (.cmd c) = ({ t with queue := t.queue ++ [c] }, s, .queued) := by
+        simp [step, hin]
+      have e2 : xstep (xOf B value) okR x s (.cmd c) = ({ x with queue := x.queue ++ [.cmd c] }, s, .queued) := by
+        simp [xstep, xstepWith, hx]
+      show (step B [] t s (.cmd c)).2.1 = _ ∧ toX (step B [] t s (.cmd c)).2.2 = _ ∧ Sim B value (step B [] t s (.cmd c)).1 _
+      rw [e1, e2]
+      exact ⟨rfl, rfl, ⟨h1, h2, Rel2.append h3 (Rel2.cons rfl Rel2.nil), h4⟩⟩
+    | exec =>
+      have hany := any_wrel B value s t.watched x.watched h4
+      have hq := runSeq_xrunQueue B value okR hU t.queue x.queue h3 s
+      have e2 := xstep_exec (xOf B value) okR x s hx
+      show (step B [] t s .exec).2.1 = _ ∧ toX (step B [] t s .exec).2.2 = _ ∧ Sim B value (step B [] t s .exec).1 _
+      rw [e2]
+      have hxv : (x.watched.any fun p => decide ((xOf B value).value s p.1 ≠ p.2)) =
+          (x.watched.any fun p => decide (value s p.1 ≠ p.2)) := rfl
+      rw [hxv, ← hany]
+      cases hv : (t.watched.any fun p => decide (B.getReply s p.1 ≠ p.2))
+      · have hw : ∀ p ∈ t.watched, B.getReply s p.1 = p.2 := by
+          intro p hp
+          have := List.any_eq_false.mp hv p hp
+          simpa using this
+        rw [(exec_equals_sequential_partial B [] t s hin h2 noInterleaving_nil hw).1, hq]
+        exact ⟨rfl, rfl, sim_idle B value⟩
+      · obtain ⟨p, hp, hd⟩ := List.any_eq_true.mp hv
+        have hd' : B.getReply s p.1 ≠ p.2 := by simpa using hd
+        rw [watch_detects_change_partial B [] t s p.1 p.2 hin h2 noInterleaving_nil hp hd']
+        exact ⟨rfl, rfl, sim_idle B value⟩
+
+/-- the guard along a trace (evaluated on the connection-level run) -/
+def Guarded (B : Backend σ κ γ ρ) (value : σ → κ → Option ν) :
+    ConnTxn κ γ ρ → σ → List (XInput κ γ) → Prop
+  | _, _, [] => True
+  | t, s, i :: rest =>
+    Guard B value t s i ∧
+      Guarded B value (step B [] t s (toConn i)).1 (step B [] t s (toConn i)).2.1 rest
+
+/-- **the connection-level machine simulates the executor-level machine** (and vice versa: both
+    are deterministic) on every trace of the common alphabet — MULTI, EXEC, DISCARD, WATCH,
+    UNWATCH, data commands — with nobody interfering, provided each WATCH outside MULTI names
+    fresh keys whose GET reply is faithful at that moment: same final store, the same replies up
+    to the shape of nil, related final states.  So every executor-level theorem above
+    (`x_exec_equals_sequential`, `x_watch_detects_iff`, …) transfers to the connection on such
+    traces; the hypotheses are exactly where the two differ (see the counterexamples below). -/
+theorem conn_simulates_executor_partial (B : Backend σ κ γ ρ) (value : σ → κ → Option ν) (okR : ρ)
+    (hU : ∀ s, B.exec s B.unwatchCmd = (s, okR)) (is : List (XInput κ γ)) :
+    ∀ (t : ConnTxn κ γ ρ) (x : ExTxn κ γ ν) (s : σ), Sim B value t x → Guarded B value t s is →
+      (run B t s (is.map (fun i => (toConn i, [])))).2.1 = (xrun (xOf B value) okR x s is).2.1 ∧
+      (run B t s (is.map (fun i => (toConn i, [])))).2.2.map toX =
+        (xrun (xOf B value) okR x s is).2.2.map some ∧
+      Sim B value (run B t s (is.map (fun i => (toConn i, [])))).1 (xrun (xOf B value) okR x s is).1 := by
+  induction is with
+  | nil => intro t x s hS _; exact ⟨rfl, rfl, hS⟩
+  | cons i rest ih =>
+    intro t x s hS hG
+    obtain ⟨g1, g2⟩ := hG
+    obtain ⟨a, b, c⟩ := sim_step B value okR hU t x s i hS g1
+    simp only [List.map_cons, run, xrun]
+    rw [a] at g2 ⊢
+    obtain ⟨a', b', c'⟩ := ih _ _ _ c g2
+    exact ⟨a', by rw [b, b'], c'⟩
+
+
+end
+
+/-- on the concrete store the GET reply of a key that is a string or missing is faithful -/
+theorem kv_getFaithful (s0 : KV.Store) (k : Nat) (h : strOrMissing s0 k = true) :
+    GetFaithfulAt KV.backend NMap.get s0 k := by
+  intro s
+  have := watch_detects_iff s0 s k
+  have hns : nonString s0 k = false := by simp [nonString, h]
+  constructor
+  · intro hr
+    false_or_by_contra
+    rename_i hne
+    exact (this.mpr ⟨hne, by simp [hns]⟩) hr
+  · intro hv
+    false_or_by_contra
+    rename_i hne
+    exact (this.mp hne).1 hv
+
+/-- non-vacuity: a guarded trace on the concrete store (string keys; a WATCH, a foreign-free
+    body with a run-time failing command and an UNWATCH inside MULTI), both machines side by side -/
+example :
+    let is : List (XInput Nat KV.Cmd) :=
+      [.watch [1, 2], .cmd (.set 3 [7]), .multi, .cmd (.incr 1), .cmd (.llen 1), .unwatch, .exec,
+       .watch [1], .cmd (.append 1 [48]), .multi, .cmd (.get 1), .exec]
+    (run KV.backend ConnTxn.idle [(1, .str [53])] (is.map (fun i => (toConn i, [])))).2.2.map toX =
+      (xrun (xOf KV.backend NMap.get) (.simple .ok) ExTxn.idle [(1, .str [53])] is).2.2.map some ∧
+    (xrun (xOf KV.backend NMap.get) (.simple .ok) ExTxn.idle [(1, .str [53])] is).2.2.getLast? = some .nil := by
+  decide
+
+/-- **divergence 1 — a key watched twice**: `WATCH k` (value 0), k := 1, `WATCH k` again, k := 0,
+    `MULTI; EXEC`.  The connection compares EVERY snapshot (the second one, 1, differs: nil); the
+    executor keeps the FIRST (0 = 0: the queue runs).  Hence the freshness guard. -/
+theorem machines_differ_on_rewatch_counterexample :
+    let is : List (XInput Nat KV.Cmd) :=
+      [.watch [1], .cmd (.set 1 [49]), .watch [1], .cmd (.set 1 [48]), .multi, .exec]
+    (run KV.backend ConnTxn.idle [(1, .str [48])] (is.map (fun i => (toConn i, [])))).2.2.getLast? =
+      some .nil ∧
+    (xrun (xOf KV.backend NMap.get) (.simple .ok) ExTxn.idle [(1, .str [48])] is).2.2.getLast? =
+      some (.results []) := by
+  decide
+
+/-- **divergence 2 — a watched key that is not a string**: the executor sees the push, the
+    connection does not.  Hence the faithfulness guard. -/
+theorem machines_differ_on_nonstring_counterexample :
+    let is : List (XInput Nat KV.Cmd) := [.watch [1], .cmd (.rpush 1 [[50]]), .multi, .exec]
+    (run KV.backend ConnTxn.idle [(1, .list [[49]])] (is.map (fun i => (toConn i, [])))).2.2.getLast? =
+      some (.results []) ∧
+    (xrun (xOf KV.backend NMap.get) (.simple .ok) ExTxn.idle [(1, .list [[49]])] is).2.2.getLast? =
+      some .nil := by
+  decide
+
 /-! ## one executor shared by several clients (`SimulationHarness`, `RedisServer`) -/
 
 section
